@@ -1,4 +1,5 @@
 import Nsq.Proofs.Guid
+import Nsq.Proofs.GuidExtra
 import Nsq.Tie.Guid
 /-!
 # C12 — Message ids are unique and increasing per topic
@@ -111,7 +112,49 @@ theorem hex_ids_nodup (f : St) (clock : List (BitVec 64)) : ((run f clock).map h
   rw [List.pairwise_map]
   exact List.Pairwise.imp (fun {a b} hne heq => hne (hex_injective a b heq)) h
 
+/-- "Increasing" also holds for what consumers see: for non-negative ids the 16-character hex
+strings are ordered (lexicographically, i.e. as byte strings) like the ids. -/
+theorem hex_strictMono (a b : BitVec 64) (ha : 0 ≤ a.toInt) (hab : a.toInt < b.toInt) : hex a < hex b :=
+  Nsq.Proofs.GuidExtra.hex_strictMono a b ha hab
+
+/-- The id text is always made of `[0-9a-f]` (16 of them: `hex_length`). -/
+theorem hex_charset (g : BitVec 64) : ∀ c ∈ hex g,
+    (48 ≤ c.toNat ∧ c.toNat ≤ 57) ∨ (97 ≤ c.toNat ∧ c.toNat ≤ 102) :=
+  Nsq.Proofs.GuidExtra.hex_charset g
+
+/-- For node ids in `[0,1024)` (enforced by `nsqd.New`: `Nsq.Tie.Guid.nodeID_range_checked`),
+sequence numbers in `[0,4096)` and 41 bits of pseudo-milliseconds since `twepoch`, the three
+fields of an id do not overlap: the id is non-negative and each field can be read back. -/
+theorem pack_unpack (ts node seq : BitVec 64) (hts : (ts - twepoch).toNat < 2 ^ 41)
+    (hn : node.toNat < 1024) (hs : seq.toNat < 4096) :
+    0 ≤ (pack ts node seq).toInt ∧
+    (pack ts node seq).toNat / 2 ^ 22 = (ts - twepoch).toNat ∧
+    (pack ts node seq).toNat / 2 ^ 12 % 1024 = node.toNat ∧
+    (pack ts node seq).toNat % 4096 = seq.toNat :=
+  Nsq.Proofs.GuidExtra.pack_unpack ts node seq hts hn hs
+
+/-- Hence two nodes with different (valid) node ids never produce the same id. -/
+theorem pack_injective (ts ts' node node' seq seq' : BitVec 64)
+    (hts : (ts - twepoch).toNat < 2 ^ 41) (hn : node.toNat < 1024) (hs : seq.toNat < 4096)
+    (hts' : (ts' - twepoch).toNat < 2 ^ 41) (hn' : node'.toNat < 1024) (hs' : seq'.toNat < 4096)
+    (h : pack ts node seq = pack ts' node' seq') : ts = ts' ∧ node = node' ∧ seq = seq' :=
+  Nsq.Proofs.GuidExtra.pack_injective ts ts' node node' seq seq' hts hn hs hts' hn' hs' h
+
+/-- **More than 4096 per millisecond**: whatever the start state, the node id and the number of
+requests, at most 4096 ids are handed out within one pseudo-millisecond (the other requests
+get an error, i.e. `GenerateID` waits) — and 4096 is reached (`burst_tight`). -/
+theorem burst_4096 (f : St) (ts : BitVec 64) (clock : List (BitVec 64))
+    (h : ∀ now ∈ clock, BitVec.sshiftRight now 20 = ts) : (run f clock).length ≤ 4096 :=
+  Nsq.Proofs.GuidExtra.burst_4096 f ts clock h
+
 /-! ## Non-vacuity: the hypotheses are met by concrete, non-trivial runs -/
+
+example : (run Nsq.Proofs.GuidExtra.tightSt0 (List.replicate 4096 Nsq.Proofs.GuidExtra.tightNow)).length = 4096 :=
+  Nsq.Proofs.GuidExtra.burst_tight
+example : hex 255#64 < hex 256#64 := hex_strictMono _ _ (by decide) (by decide)
+example : (pack (twepoch + 5#64) 1023#64 4095#64).toNat % 4096 = 4095 :=
+  (pack_unpack _ _ _ (by decide) (by decide) (by decide)).2.2.2
+
 
 /-- a clock that stalls, advances, steps back and recovers: 4 ids, 2 errors -/
 def demoClock : List (BitVec 64) :=
